@@ -261,6 +261,10 @@ def run(ctx):
             cases.append(("g7#%d" % i, gens.to_yaml_dict(gens7.g7(rng)), "metrics"))
     except ImportError:
         pass
+    # specifications in which configurations SHARE objects (YAML anchors; `_alias` paths, see specs.build_objects)
+    import c14
+    for i in range(10 * k):
+        cases.append(("g14a#%d" % i, c14.gen_anchor(rng)[0], "metrics"))
     texts = []
     for name, d, mode in cases:
         others = [(c[1], c[2]) for c in rng.sample(cases, 2)]
